@@ -94,6 +94,23 @@ def cases(rng, tier):
             pass
         fx = rng.choice([2.5, -2.5, 1e20, -7.99, 0.999, 123456789.5, -0.0])
         yield Case(program=render(bi('ㅈㅅ', VL.float_expr(fx))), tag='to-int', monitor='c11_expect', data=str(int(fx)))
+    # conversions on integers beyond the range of a double (|n| ≥ 2^1024, ≈ 309 digits): ㅈㅅ is the identity on every
+    # integer and on numeric strings of any length, arithmetic stays exact, only the conversion *to* a real fails — with a
+    # language exception (seeded change S11h routed ㅈㅅ through math.isfinite)
+    for e in ([1023, 1024, 1025, 2000] if tier == 'quick' else [1000, 1023, 1024, 1025, 1100, 2000, 5000, 20000]):
+        for sgn in (1, -1):
+            for off in (0, 1, -1, rng.randint(2, 10 ** 9)):
+                n_ = sgn * (2 ** e + off)
+                yield Case(program=render(bi('ㅈㅅ', lit(n_))), tag='to-int-huge', monitor='c11_expect', data=str(n_))
+                yield Case(program=render(bi('ㄴ', bi('ㅈㅅ', lit(n_)), lit(n_))), tag='to-int-huge-eq', monitor='c11_expect', data='True')
+                yield Case(program=render(bi('ㅈㅅ', bi('ㅁㅈ', lit(n_)))), tag='to-int-huge-str', monitor='c11_expect', data=str(n_))
+                yield Case(program=render(bi('ㅈㅅ', bi('ㄱ', lit(n_), lit(3)))), tag='to-int-huge-product', monitor='c11_expect', data=str(3 * n_))
+                yield Case(program=render(bi('ㄴㄴ', lit(n_), lit(7))), tag='quot-huge', monitor='c11_expect', data=str(tdiv(n_, 7)))
+                yield Case(program=render(bi('ㅈ', lit(n_), lit(n_ + 1))), tag='lt-huge', monitor='c11_expect', data='True')
+                try:
+                    float(n_)
+                except OverflowError:
+                    yield Case(program=render(bi('ㅅㅅ', lit(n_))), tag='to-float-huge', monitor='c11_err', data='<예외: [5, -54]>')
     # real remainder: ㄴㅁ on a Float operand is the exact remainder of the truncated quotient (IEEE fmod, always
     # representable), sign of the dividend — also where dividend and divisor have opposite signs and a naive
     # `%`-then-correct formula rounds (seeded change S11g)
